@@ -10,7 +10,7 @@ from .excs import EXT_CLASS_NAMES
 from .interp_expr import Env, PyRaise
 from .ops import bterm, kind, rterm, term, to_sfloat, wrap_bool, wrap_int, wrap_real
 from .path import PathEnd, Unsupported
-from .values import (FIN, NAN, UNDEF, AnyV, BoundV, ClassV, DequeV, EnumMap, EnumSet, EnumVal, EnvFn, ExtV,
+from .values import (OpaqueArgs, FIN, NAN, UNDEF, AnyV, BoundV, ClassV, DequeV, EnumMap, EnumSet, EnumVal, EnvFn, ExtV,
                      FuncV, GenExp, LambdaV, LockV, MethodRef, ModuleV, Obj, PySet, Ref, SFloat, SOpt, Sym,
                      TimeDelta, fresh_name)
 
@@ -31,7 +31,11 @@ class CallMixin:
         args = []
         for a in node.args:
             if isinstance(a, ast.Starred):
-                args.extend(self.iterate(self.eval(a.value, env)))
+                sv = self.eval(a.value, env)
+                if isinstance(sv, OpaqueArgs):
+                    args.append(sv)
+                else:
+                    args.extend(self.iterate(sv))
             else:
                 args.append(self.eval(a, env))
         kwargs = {}
@@ -78,6 +82,15 @@ class CallMixin:
             return self.call_ext(fv.name, args, kwargs, node, env)
         if isinstance(fv, MethodRef):
             return self.call_method(fv.obj, fv.attr, args, kwargs, node)
+        if isinstance(fv, tuple) and len(fv) == 2 and fv[0] == "typeof" and isinstance(fv[1], Obj) and fv[1].cls_t is not None:
+            # type(exc)(...): user-defined constructor of an unknown exception class -- a new object of the same
+            # class, or whatever that constructor raises
+            if self.path.branch(z3.Bool(fresh_name("ctor_raises"))):
+                raise PyRaise(self.fresh_exc("ctor_exc", origin="raised-by-code"), node=node)
+            o = Obj(None, {"__traceback__": None, "__cause__": None}, ident=z3.Int(fresh_name("copy_id")), cls_t=fv[1].cls_t)
+            o.tag = "raised-by-code"
+            self.path.assume(o.ident != fv[1].ident)
+            return o
         if isinstance(fv, Obj) and fv.cls is not None:
             m = self.tree.find_method(fv.cls, "__call__")
             if m is not None:
@@ -487,6 +500,8 @@ class CallMixin:
             return h(self, v, node)
         if isinstance(v, int):
             return v
+        if isinstance(v, Sym) and v.ty == "int":
+            return v
         raise Unsupported(f"int({v!r})")
 
     def to_str(self, v, node):
@@ -497,7 +512,10 @@ class CallMixin:
         if isinstance(v, Sym) and v.ty == "str":
             return v
         if isinstance(v, (int, float)) and not isinstance(v, bool):
-            return str(v)
+            try:
+                return str(v)
+            except ValueError:  # int beyond CPython's str() digit limit
+                self.raise_builtin("ValueError", node)
         h = self.ext_models.get("str()")
         if h is not None:
             return h(self, v, node)
